@@ -97,6 +97,7 @@ structure State where
   vers : List (String × Nat) := []       -- user table: version of the user object LoadUser returns
   extra : List (String × ID) := []       -- ids UserSessions lists although no record says so
   fails : List Bool := []                -- fault oracle: one entry per persistence call, `true` = fails
+  picks : List ID := []                  -- order oracle: the ids of the SaveSession calls still to come in this operation
 deriving Repr, Inhabited
 
 /-! ### association lists (no-duplicates is a separately proved invariant) -/
